@@ -206,6 +206,11 @@ def concretize(al, r_fill, r_sec, reserved=()):
         cls = al["cls"][n - 1]
         if n == 2 and al["eq"] == "same":
             val = values[1]
+        elif form == "E4" and cls == "text" and r_sec.random() < 0.5:
+            # community strings that BEGIN like a BGP community (digits, n:m, a well-known name) but are not one
+            w = "".join(r_sec.choice("ghjkmnpqrstvwxz") for _ in range(5))
+            val = r_sec.choice(["%d!%s" % (r_sec.randint(1, 9999), w), "%d#%s" % (r_sec.randint(1, 99), w), "none-%s" % w, "internet-%s" % w,
+                                "%d:%d-%s" % (r_sec.randint(1, 65535), r_sec.randint(1, 999), w), "no-export.%s" % w, "local-AS+%s" % w])
         else:
             val = gen_secret(r_sec, cls, al["slen"], exact, avoid=set(reserved) | set(values.values()))
         values[n] = val
